@@ -17,6 +17,10 @@
 //!            "form": "attr"|"text",  strings: office:string-value attribute or text:p content
 //!            "fm": "of:=1+1"?,       table:formula
 //!            "vf": bool?}            value attribute written *before* office:value-type
+//!   or    {"k": "ws", "lex": name}  a whitespace-only text node between two cell elements
+//!   table-level "pw": name | ""     whitespace-only text in front of every row element and,
+//!           inside every cell with children, around its text:p elements ("pretty printing");
+//!           names: sp nl nl2 tab crlf (see `ws_text`)
 use crate::build::zipw::zip_bytes;
 use serde_json::Value;
 
@@ -56,6 +60,8 @@ pub struct OdsCell {
     pub extra_attrs: Vec<(String, String)>,
     /// raw XML children replacing the generated text:p content (C19 storage forms)
     pub raw_children: Option<String>,
+    /// Some(text): not an element at all but a (whitespace) text node written in its place
+    pub text_node: Option<String>,
 }
 
 impl OdsCell {
@@ -70,7 +76,11 @@ impl OdsCell {
             value_first: false,
             extra_attrs: Vec::new(),
             raw_children: None,
+            text_node: None,
         }
+    }
+    pub fn text_node(text: &str) -> OdsCell {
+        OdsCell { text_node: Some(text.to_string()), ..OdsCell::empty(0) }
     }
     pub fn covered(repeat: u32) -> OdsCell {
         OdsCell { covered: true, ..OdsCell::empty(repeat) }
@@ -100,11 +110,14 @@ pub struct OdsTable {
     /// `<table:table-column table:number-columns-repeated=n/>` declaration (ignored by readers
     /// of cell content, always written by LibreOffice)
     pub column_decl: Option<u32>,
+    /// whitespace-only text written in front of every child element of the table, in front of
+    /// `</table:table>` and, inside every cell that has children, around its text:p elements
+    pub pretty: String,
 }
 
 impl OdsTable {
     pub fn new(name: &str, rows: Vec<OdsRow>) -> OdsTable {
-        OdsTable { name: name.to_string(), rows, display: None, column_decl: Some(16384) }
+        OdsTable { name: name.to_string(), rows, display: None, column_decl: Some(16384), pretty: String::new() }
     }
 }
 
@@ -117,6 +130,8 @@ pub struct OdsDoc {
     pub encrypted: bool,
     /// override of the `mimetype` entry
     pub mimetype: Option<Vec<u8>>,
+    /// whitespace-only text between the children of table:named-expressions
+    pub pretty_named: String,
 }
 
 pub fn esc_attr(s: &str) -> String {
@@ -148,16 +163,39 @@ pub fn esc_text(s: &str) -> String {
     o
 }
 
-fn paragraphs(text: &str, out: &mut String) {
+/// whitespace text by name (the specs carry names, TLC strings are atomic)
+pub fn ws_text(name: &str) -> &'static str {
+    match name {
+        "" => "",
+        "sp" => " ",
+        "nl" => "\n",
+        "nl2" => "\n  ",
+        "tab" => "\t",
+        "crlf" => "\r\n",
+        other => panic!("harness: unknown whitespace name {}", other),
+    }
+}
+
+fn paragraphs(text: &str, pretty: &str, out: &mut String) {
     for p in text.split('\n') {
+        out.push_str(pretty);
         out.push_str("<text:p>");
         out.push_str(&esc_text(p));
         out.push_str("</text:p>");
     }
+    out.push_str(pretty);
 }
 
 impl OdsCell {
     pub fn write_xml(&self, out: &mut String) {
+        self.write_xml_pretty("", out)
+    }
+
+    pub fn write_xml_pretty(&self, pretty: &str, out: &mut String) {
+        if let Some(t) = &self.text_node {
+            out.push_str(&esc_text(t));
+            return;
+        }
         let tag = if self.covered { "table:covered-table-cell" } else { "table:table-cell" };
         out.push('<');
         out.push_str(tag);
@@ -214,11 +252,11 @@ impl OdsCell {
         } else {
             match &self.val {
                 OdsVal::None => {}
-                OdsVal::Str { text, .. } => paragraphs(text, &mut kids),
+                OdsVal::Str { text, .. } => paragraphs(text, pretty, &mut kids),
                 OdsVal::Float(l) | OdsVal::Percentage(l) | OdsVal::Currency(l, _) | OdsVal::Date(l)
-                | OdsVal::Time(l) => paragraphs(self.display.as_deref().unwrap_or(l), &mut kids),
+                | OdsVal::Time(l) => paragraphs(self.display.as_deref().unwrap_or(l), pretty, &mut kids),
                 OdsVal::Bool(b) => {
-                    paragraphs(self.display.as_deref().unwrap_or(if *b { "TRUE" } else { "FALSE" }), &mut kids)
+                    paragraphs(self.display.as_deref().unwrap_or(if *b { "TRUE" } else { "FALSE" }), pretty, &mut kids)
                 }
             }
         }
@@ -236,6 +274,10 @@ impl OdsCell {
 
 impl OdsRow {
     pub fn write_xml(&self, out: &mut String) {
+        self.write_xml_pretty("", out)
+    }
+
+    pub fn write_xml_pretty(&self, pretty: &str, out: &mut String) {
         out.push_str("<table:table-row");
         if self.repeat != 1 || self.explicit_repeat {
             out.push_str(&format!(" table:number-rows-repeated=\"{}\"", self.repeat));
@@ -247,7 +289,7 @@ impl OdsRow {
         }
         out.push('>');
         for c in &self.cells {
-            c.write_xml(out);
+            c.write_xml_pretty(pretty, out);
         }
         out.push_str("</table:table-row>");
     }
@@ -292,16 +334,20 @@ impl OdsDoc {
             }
             o.push('>');
             if let Some(n) = t.column_decl {
+                o.push_str(&t.pretty);
                 o.push_str(&format!("<table:table-column table:number-columns-repeated=\"{}\"/>", n));
             }
             for r in &t.rows {
-                r.write_xml(&mut o);
+                o.push_str(&t.pretty);
+                r.write_xml_pretty(&t.pretty, &mut o);
             }
+            o.push_str(&t.pretty);
             o.push_str("</table:table>");
         }
         if !self.named.is_empty() {
             o.push_str("<table:named-expressions>");
             for (name, expr, is_range) in &self.named {
+                o.push_str(&self.pretty_named);
                 if *is_range {
                     o.push_str(&format!(
                         "<table:named-range table:name=\"{}\" table:base-cell-address=\"$Sheet1.$A$1\" table:cell-range-address=\"{}\"/>",
@@ -316,6 +362,7 @@ impl OdsDoc {
                     ));
                 }
             }
+            o.push_str(&self.pretty_named);
             o.push_str("</table:named-expressions>");
         }
         o.push_str("</office:spreadsheet></office:body></office:document-content>");
@@ -358,6 +405,9 @@ impl OdsDoc {
 // ------------------------------------------------------------------ JSON tokens -> description
 
 pub fn cell_from_token(t: &Value) -> OdsCell {
+    if t["k"].as_str() == Some("ws") {
+        return OdsCell::text_node(ws_text(t["lex"].as_str().unwrap_or("sp")));
+    }
     let n = t["n"].as_u64().unwrap_or(1) as u32;
     let lex = t["lex"].as_str().unwrap_or("").to_string();
     let val = match t["vt"].as_str().unwrap_or("") {
@@ -382,6 +432,7 @@ pub fn cell_from_token(t: &Value) -> OdsCell {
         value_first: t["vf"].as_bool().unwrap_or(false),
         extra_attrs: Vec::new(),
         raw_children: None,
+        text_node: None,
     }
 }
 
@@ -402,5 +453,9 @@ pub fn table_from_tokens(t: &Value, default_name: &str) -> OdsTable {
             t["rows"].as_array().map(|a| a.as_slice()).unwrap_or(&[]),
         ),
     };
-    OdsTable::new(&name, rows.iter().map(row_from_token).collect())
+    let mut tb = OdsTable::new(&name, rows.iter().map(row_from_token).collect());
+    if let Some(pw) = t.get("pw").and_then(|x| x.as_str()) {
+        tb.pretty = ws_text(pw).to_string();
+    }
+    tb
 }
